@@ -337,10 +337,20 @@ class CellBasis(AbstractBasis):
         """
         from skfem.utils import solve, condense
 
+        if elements is not None:
+            # integrate over the given elements only
+            elements = self.mesh.normalize_elements(elements)
+            ix = elements
+            if self.tind is not None:
+                # positions of the elements in this basis
+                ix = np.zeros(self.mesh.nelements, dtype=np.int64)
+                ix[self.tind] = np.arange(len(self.tind))
+                ix = ix[elements]
+            return (self.with_elements(elements)
+                    .project(self._restrict_interp(interp, ix), dtype=dtype))
+
         M, f = self._projection(interp, dtype=dtype)
 
-        if elements is not None:
-            return solve(*condense(M, f, I=self.get_dofs(elements=elements)))
-        elif self.tind is not None:
+        if self.tind is not None:
             return solve(*condense(M, f, I=self.get_dofs(elements=self.tind)))
         return solve(M, f)
